@@ -17,9 +17,12 @@ package entry
 //       timeout -- the number of valid shares the loop had collected (from the
 //       returned error), which exposes accept/reject of every prefix because
 //       the behaviour set is prefix closed.
-//   TestVerif_C03_Shares   drives extractAndValidateShare directly with every
-//       (sender, share kind) pair and compares accept/reject and the returned
-//       share with the spec's Valid(m).
+//       Histories include several messages of the same sender (valid then
+//       invalid, invalid then valid, valid then another valid-looking share)
+//       and messages delivered after the threshold was reached.
+//   (TestVerif_C03_Shares, the direct drive of extractAndValidateShare, lives
+//   in c03_direct_test.go; this file uses exported identifiers and
+//   SignAndSubmit only, so that it keeps building when helpers change.)
 
 import (
 	"context"
@@ -330,15 +333,17 @@ func c03RunBehaviour(t *testing.T, r *rand.Rand, g *c03Group, b kit.V) (obs c03O
 	obs.OwnShare = "missing"
 	select {
 	case m := <-ch.sent:
-		if ssm, ok := m.(*SignatureShareMessage); ok {
-			want := bls.SignG1(g.shares[self], g.prev).Marshal()
-			if int(ssm.senderID) == self && hex.EncodeToString(ssm.shareBytes) == hex.EncodeToString(want) && ssm.sessionID == g.session("cur") {
-				obs.OwnShare = "ok"
-			} else {
-				obs.OwnShare = "wrong"
-			}
-		} else {
+		// compared through the exported API only (constructor + Marshal)
+		wantMsg := NewSignatureShareMessage(group.MemberIndex(self), bls.SignG1(g.shares[self], g.prev).Marshal(), g.session("cur"))
+		wantBytes, _ := wantMsg.Marshal()
+		gotBytes, err := m.Marshal()
+		switch {
+		case m.Type() != wantMsg.Type():
 			obs.OwnShare = "wrong-type"
+		case err != nil || hex.EncodeToString(gotBytes) != hex.EncodeToString(wantBytes):
+			obs.OwnShare = "wrong"
+		default:
+			obs.OwnShare = "ok"
 		}
 	case <-time.After(c03Wait):
 		t.Fatalf("own share was never broadcast")
@@ -400,6 +405,7 @@ func c03RunBehaviour(t *testing.T, r *rand.Rand, g *c03Group, b kit.V) (obs c03O
 		return finish("submitted")
 	}
 
+	var completedEntry []byte
 	for _, s := range b.Get("steps").List() {
 		switch s.Get("a").Str() {
 		case "Deliver":
@@ -481,8 +487,28 @@ func c03RunBehaviour(t *testing.T, r *rand.Rand, g *c03Group, b kit.V) (obs c03O
 				}
 				return finish("panic")
 			}
-			return afterSubmit(entry)
+			completedEntry = entry
+		case "Late":
+			// delivered after the loop was left: must change nothing
+			m := s.Get("m")
+			ch.deliver(&c03Msg{payload: NewSignatureShareMessage(group.MemberIndex(m.Get("sender").Int()),
+				g.shareBytes(r, m.Get("share")), g.session(m.Get("session").Str())), processed: make(chan struct{})})
 		case "Submit":
+			if completedEntry == nil {
+				t.Fatalf("Submit without Complete: %s", b.JSON())
+			}
+			o := afterSubmit(completedEntry)
+			// nothing else may have been submitted meanwhile
+			select {
+			case extra := <-bchain.submitted:
+				classify(extra)
+				o.Submitted = obs.Submitted
+				if hex.EncodeToString(extra) != hex.EncodeToString(completedEntry) {
+					o.Sig = "bad"
+				}
+			default:
+			}
+			return o
 		}
 	}
 	t.Fatalf("behaviour without a terminal step: %s", b.JSON())
@@ -539,8 +565,11 @@ func c03BehaviourID(b kit.V) string {
 	id := fmt.Sprintf("self=%d,known=%s:", b.Get("self").Int(), b.Get("known").JSON())
 	for _, s := range b.Get("steps").List() {
 		switch s.Get("a").Str() {
-		case "Deliver":
+		case "Deliver", "Late":
 			m := s.Get("m")
+			if s.Get("a").Str() == "Late" {
+				id += "late:"
+			}
 			if m.Get("kind").Str() != "share" {
 				id += "other;"
 			} else {
@@ -553,69 +582,3 @@ func c03BehaviourID(b kit.V) string {
 	return id
 }
 
-// ------------------------------------------------------------------ direct
-
-func TestVerif_C03_Shares(t *testing.T) {
-	kit.RequireEngine(t)
-	rep := kit.NewReport("C03", "shares")
-	defer rep.Write(t)
-	r := kit.Rand(304)
-	rounds := kit.IntEnv("VERIF_SHARE_ROUNDS", 3)
-	for round := 0; round < rounds; round++ {
-		n := 3 + r.Intn(4)
-		h := n/2 + 1
-		g := newC03Group(r, n, h)
-		known := map[group.MemberIndex]*bn256.G2{}
-		unknown := 1 + r.Intn(n) // one member without a public key share
-		for j := 1; j <= n; j++ {
-			if j != unknown || round%2 == 0 {
-				known[group.MemberIndex(j)] = g.pkShares[j]
-			}
-		}
-		for sender := 1; sender <= n+1; sender++ {
-			for signer := 1; signer <= n+1; signer++ {
-				for _, msg := range []string{"prev", "other", "inf", "garbage"} {
-					if (msg == "inf" || msg == "garbage") && signer != 1 {
-						continue
-					}
-					sh := kit.V{X: map[string]interface{}{"signer": float64(signer), "msg": msg}}
-					bytes := g.shareBytes(r, sh)
-					_, isKnown := known[group.MemberIndex(sender)]
-					want := msg == "prev" && signer == sender && isKnown
-					var share *bn256.G1
-					var err error
-					func() {
-						defer func() {
-							if p := recover(); p != nil {
-								err = fmt.Errorf("panic: %v", p)
-								if want {
-									rep.Diverge(fmt.Sprintf("share:panic:%s", msg), "extractAndValidateShare panicked on a correct share", sh.X, "accept", fmt.Sprint(p))
-								}
-							}
-						}()
-						share, err = extractAndValidateShare(NewSignatureShareMessage(group.MemberIndex(sender), bytes, g.session("cur")), known, g.prev)
-					}()
-					id := fmt.Sprintf("sender=%d,signer=%d,msg=%s,known=%v", sender, signer, msg, isKnown)
-					kind := fmt.Sprintf("%s/same=%v/known=%v", msg, sender == signer, isKnown)
-					rep.Eval(kind, map[string]interface{}{"case": id, "accept": want})
-					got := err == nil
-					switch {
-					case got && !want:
-						rep.Diverge("share:accepted:"+kind, "extractAndValidateShare accepted a share that does not verify under the sender's public key share ("+id+")", sh.X, "reject", "accept")
-					case !got && want:
-						rep.Diverge("share:rejected:"+kind, "extractAndValidateShare rejected a correct share ("+id+"): "+err.Error(), sh.X, "accept", err.Error())
-					case got && hex.EncodeToString(share.Marshal()) != hex.EncodeToString(bytes):
-						rep.Diverge("share:altered:"+kind, "extractAndValidateShare returned a share different from the one received ("+id+")", sh.X, hex.EncodeToString(bytes), hex.EncodeToString(share.Marshal()))
-					case !got && share != nil:
-						rep.Diverge("share:leaked:"+kind, "extractAndValidateShare returned a share together with an error ("+id+")", sh.X, nil, "share")
-					}
-					if got {
-						rep.Count("accepted", 1)
-					} else {
-						rep.Count("rejected", 1)
-					}
-				}
-			}
-		}
-	}
-}
